@@ -74,7 +74,8 @@ def judge_pair(s1, s2, subj1, subj2, io1, io2, r, exact, tol):
             for (u, v) in ((a, b), (c, d)):
                 if _dist2_seg(Df, (F(u[0]), F(u[1])), (F(v[0]), F(v[1]))) > F(tol) ** 2:
                     bad.append('division point %s farther than the tolerance from segment %s-%s' % (D, u, v))
-        if len(dps) == 2 and dps[0] != dps[1]:
+        if cl[0] != 'overlap' and len(dps) == 2 and dps[0] != dps[1]:
+            # (exactly collinear overlapping segments are divided at the two ends of the overlap: different points by design)
             bad.append('N2? the two segments are divided at different points %s and %s' % (dps[0], dps[1]))
         if cl[0] != 'overlap' and len(pushed) != 2 * len(dps):
             bad.append('%d events pushed for %d divisions' % (len(pushed), len(dps)))
@@ -161,6 +162,34 @@ def run(rep, tier, seed):
                 io1, io2 = (len(jobs) >> 1) & 1, len(jobs) & 1
                 jobs.append((s1, s2, subj1, subj2, io1, io2, 64, True))
     n_lattice = len(jobs)
+    # collinear integer segments of many lengths (touching end to start, overlapping, nested, disjoint) along small
+    # primitive directions: exact arithmetic, all clauses
+    ncol = 3000 if tier == 'quick' else 60000
+    dirs = [(1, 0), (0, 1), (1, 1), (1, -1), (2, 1), (1, 2), (3, -1), (2, -3), (7, 1), (1, 5)]
+    for _ in range(ncol):
+        dx, dy = rng.choice(dirs)
+        ox, oy = rng.randrange(-5, 6), rng.randrange(-5, 6)
+        t = sorted(rng.sample(range(0, 31), 3))
+        kind = rng.choice(['touch', 'touch', 'overlap', 'nested', 'apart'])
+        if kind == 'touch':
+            (a0, a1), (b0, b1) = (t[0], t[1]), (t[1], t[2])
+        elif kind == 'overlap':
+            (a0, a1), (b0, b1) = (t[0], t[2]), (t[1], t[2] + rng.randrange(1, 9))
+        elif kind == 'nested':
+            (a0, a1), (b0, b1) = (t[0], t[2] + 1), (t[1], t[2])
+        else:
+            (a0, a1), (b0, b1) = (t[0], t[1]), (t[2], t[2] + rng.randrange(1, 9))
+        P = lambda u: (float(ox + u * dx), float(oy + u * dy))  # noqa: E731
+        s1, s2 = (P(a0), P(a1)), (P(b0), P(b1))
+        if rng.random() < 0.5:
+            s1, s2 = s2, s1
+        if rng.random() < 0.5:
+            s1 = (s1[1], s1[0])
+        if s1[0] == s1[1] or s2[0] == s2[1]:
+            continue
+        subj = rng.choice([(1, 0), (0, 1), (1, 1)])
+        jobs.append((s1, s2, subj[0], subj[1], rng.randrange(2), rng.randrange(2), 64, True))
+    n_exact = len(jobs)
     # floats: general position, ulp neighbourhoods, the N2 family (steep edge, second edge a few ulps from its top)
     nf = 20000 if tier == 'quick' else 400000
 
@@ -239,7 +268,8 @@ def run(rep, tier, seed):
     cov['exhaustive'] = True
     cov['exhaustive_domain'] = 'all ordered pairs of the %d %s lattice segments with endpoints in {0..3}^2 x 3 operand assignments' % (
         len(segments), 'undirected' if tier == 'quick' else 'directed')
-    cov['float_pairs'] = len(jobs) - n_lattice
+    cov['collinear_integer_pairs'] = n_exact - n_lattice
+    cov['float_pairs'] = len(jobs) - n_exact
     cov['geometry_classes'] = classes
     cov['swapped_pairs_compared'] = swapped
     cov['traces_validated_against_impl'] = len(jobs) - len(mism)
@@ -248,7 +278,7 @@ def run(rep, tier, seed):
     cov['rule'] = ('possible_intersection on two fresh segments built like fill_queue builds them; lattice part exhaustive, all clauses with '
                    'exact rational reference; float part: general position, lattice points nudged by up to 2 ulps, and the N2 family; '
                    'containment, tolerance (1e-9 x magnitude) and common-point clauses. distinct_nontrivial = pairs that actually meet.')
-    cov['samples'] = [lines[7], lines[n_lattice + 3]]
+    cov['samples'] = [lines[7], lines[n_lattice + 3], lines[n_exact + 3]]
     cov['trusted_base'] = c01.TRUSTED + ['the reference classification of segment pairs is exact rational Python code (tools/gb/segs.py); the '
                                          'exactness of the division point at the exact instance is a Coq theorem (intersection_exact_all)']
     rep.log('%d calls, %d model mismatches, %d failing, %d N2' % (len(jobs), len(mism), len(fails), len(n2)))
